@@ -104,7 +104,7 @@ static char **g_argv;
 
 /* options */
 static int opt_freeze = 0; /* > 0: extra alternative at scheduling points: stall the running thread for that many decisions */
-static int opt_p = 1, opt_d = 0, opt_j = 1, opt_stateful = 0, opt_spurious = 0, opt_verbose = 0;
+static int opt_p = 1, opt_d = 0, opt_j = 1, opt_stateful = 0, opt_spurious = 0, opt_verbose = 0, opt_postpoints = 0;
 static long opt_budget = 2000000, opt_exec_timeout = 60;
 static double opt_deadline = 0;
 static int opt_maxlevel = -1;
@@ -747,9 +747,15 @@ void vy_post(int kind, const volatile void *addr, unsigned size)
 		H->on_op(kind, addr, size, me->file, me->line, me->pre_val, v);
 	if(kind == VY_LOAD)
 		log_op(me->file, me->line, addr, size, v, 0);
-	else if(v != me->pre_val)
+	else if(v != me->pre_val) {
 		do_effect();
-	else
+		/* --post-points: another thread may also run right AFTER an atomic that changed something, i.e. before the plain code
+		 * that follows it (what "publish the pointer, then finish the object" needs in order to show) */
+		if(opt_postpoints && is_fine(me->file)) {
+			sub_choice = 1;
+			sched_point();
+		}
+	} else
 		log_op(me->file, me->line, addr, size, v, 1);
 }
 
@@ -986,7 +992,7 @@ static void write_replay(const char *path, const struct pair *pairs, uint32_t np
 	for(int i = 1; i < g_argc; ++i)
 		if(strchr(g_argv[i], '=') && g_argv[i][0] != '-')
 			fprintf(f, " %s", g_argv[i]);
-	fprintf(f, "\nflags stateful=%d spurious=%d budget=%ld freeze=%d\n", opt_stateful, opt_spurious, opt_budget, opt_freeze);
+	fprintf(f, "\nflags stateful=%d spurious=%d budget=%ld freeze=%d postpoints=%d\n", opt_stateful, opt_spurious, opt_budget, opt_freeze, opt_postpoints);
 	fprintf(f, "plen %u\npairs %u\n", plen, npairs);
 	for(uint32_t i = 0; i < npairs; ++i)
 		fprintf(f, "%u %u %u\n", pairs[i].idx, pairs[i].alt, pairs[i].nalt);
@@ -1489,6 +1495,8 @@ int rs_main(int argc, char **argv, const struct rs_harness *h)
 			opt_stateful = 1;
 		else if(!strcmp(a, "--spurious-cas"))
 			opt_spurious = 1;
+		else if(!strcmp(a, "--post-points"))
+			opt_postpoints = 1;
 		else if(!strcmp(a, "--freeze") && i + 1 < argc)
 			opt_freeze = atoi(argv[++i]);
 		else if(!strcmp(a, "--verbose"))
